@@ -182,8 +182,45 @@ def run(ck):
     pguard = E.M(lambda t: E.strip(t).get("k") == "bin" and E.strip(t).get("op") == "<" and "rawSize" in E.mentions(E.strip(t)["r"]) and
                  {"Ipc::TypedMsgHdr::DataBuffer::size"} <= E.mentions(E.strip(t)["l"]), "(sizeof(data.raw) - data.size) < rawSize")
     ck.require_fact("X2.bounded-copy", ck.flow(pr), ev_call("memcpy"), pguard, False, "memcpy in putRaw", why="(write past the message buffer)")
+    # generic: any read at data.raw + offset anywhere in TypedMsgHdr must be covered by (data.size - offset) >= n for the n bytes it takes
+    def at_offset(t):
+        t = E.strip(t)
+        return isinstance(t, dict) and t.get("k") == "bin" and t.get("op") == "+" and \
+            {"Ipc::TypedMsgHdr::DataBuffer::raw", "Ipc::TypedMsgHdr::offset"} <= E.mentions(t) and not any(n.get("k") == "call" for n in E.walk(t))
+    nreads = 0
+    for fn_ in tm.all_fns(lambda f: f.name.startswith(TM)):
+        fl_ = None
+        for b_ in fn_.blocks.values():
+            for ev in b_["ev"]:
+                if ev.get("e") != "call":
+                    continue
+                x_ = E.strip(ev["x"])
+                src = [a for a in x_.get("a", []) if at_offset(a)]
+                if not src:
+                    continue
+                nreads += 1
+                others = [a for a in x_.get("a", []) if not at_offset(a) and E.strip(a).get("k") not in ("un",)]
+                fl_ = fl_ or ck.flow(fn_)
+                for s_ in fl_.sites:
+                    if s_.ev is not ev:
+                        continue
+                    lens = {E.key(a) for a in others}
+                    cover = E.M(lambda t, lens=lens: E.strip(t).get("k") == "bin" and E.strip(t).get("op") == "<" and E.key(E.strip(t)["r"]) in lens and
+                                {"Ipc::TypedMsgHdr::offset", "Ipc::TypedMsgHdr::DataBuffer::size"} <= E.mentions(E.strip(t)["l"]), "(data.size - offset) < n")
+                    if s_.has(cover, False):
+                        ck.ok("X2.read-within-received", s_.where(), "%s reads at data.raw + offset only within the received bytes" % fn_.name)
+                    else:
+                        ck.violation("X2.read-within-received", "X2|%s|read-at-offset" % fn_.name, s_.where(),
+                                     "%s reads from data.raw + offset (%s) without the (n <= data.size - offset) check: a message whose length prefix exceeds the bytes "
+                                     "actually received is read past its end" % (fn_.name, fl_.fn and E.key(x_)[:100]), fl_.witness(s_))
+    ck.need(nreads >= 1, "C58: no read at data.raw + offset found in TypedMsgHdr.cc")
     gs = tm.fn(TM + "getString")
     fl = ck.flow(gs)
+    if not fl.find(ev_call(TM + "getRaw")):
+        # getString reads the buffer itself: the generic X2.read-within-received rule above is what decides it; the destination-size
+        # rule below is specific to the getRaw(&buf, length) form
+        ck.ok("X2.string-bounds", gs.where(), "getString does not copy through a fixed local buffer (decided by X2.read-within-received)", nontrivial=False)
+        return
     ck.require_fact("X2.string-bounds", fl, ev_call(TM + "getRaw"), E.m_cmp("<", E.m_is_ref("length"), E.m_const(0)), False, "getRaw in getString")
     bufsz = [ev.get("arr") for b_ in gs.blocks.values() for ev in b_["ev"] if ev.get("e") == "decl" and ev.get("d") == "buf"]
     ck.need(bufsz and bufsz[0], "C58: getString no longer reads into a fixed local array 'buf'")
